@@ -62,7 +62,7 @@ Definition wmsg_eqb (a b : wmsg) : bool :=
 Definition exn_eqb (a b : exn) : bool :=
   match a, b with
   | XProtocolError, XProtocolError | XTransportLost, XTransportLost | XTypeError, XTypeError
-  | XAttributeError, XAttributeError | XException, XException | XNoObject, XNoObject => true
+  | XAttributeError, XAttributeError | XException, XException | XNoObject, XNoObject | XKeyError, XKeyError => true
   | _, _ => false
   end.
 Definition cb_eqb (a b : cb) : bool :=
